@@ -20,7 +20,7 @@ def run(ctx):
     ctx.build(["c17"])
     paths, rs = xcommon.explore(ctx, "c17", "X_C17", 280, 3500, per_file=28)
     # prologue/epilogue templates assembled by llvm-mc (corpus/c17) and lifted by the real translators
-    lifted = ctx.record("c17", ["--mode", "lifted", "--corpus", core.ROOT + "/corpus/c17"], "lifted.json")
+    lifted = ctx.record("c17", ["--mode", "lifted", "--corpus", core.ROOT + "/corpus/c17," + core.ROOT + "/corpus/lifted"], "lifted.json")
     r = ctx.tlc_explore("X_C17", lifted)
     for rj in r.rejects:
         ctx.reject(rj)
